@@ -7,10 +7,11 @@ from common import b2s, fkey, opt
 
 import pams.market as pm
 from pams.logs.base import (CancelLog, ExecutionLog, ExpirationLog, Logger, OrderLog)
+from pams.logs.market_step_loggers import MarketStepPrintLogger, MarketStepSaver
 from pams.order import LIMIT_ORDER, MARKET_ORDER, Cancel, Order
 
 
-class RecLogger(Logger):
+class _RecMixin:
     """records what reaches write / bulk_write (pending) in order"""
 
     def __init__(self):
@@ -25,6 +26,21 @@ class RecLogger(Logger):
         for l in logs:
             self.seen.append(("bulk", l))
         super().bulk_write(logs)
+
+
+class RecLogger(_RecMixin, Logger):
+    pass
+
+
+class RecSaver(_RecMixin, MarketStepSaver):
+    """the recorder on top of pams' own MarketStepSaver (the subclassing pattern of the examples)"""
+
+
+class RecPrinter(_RecMixin, MarketStepPrintLogger):
+    pass
+
+
+LOGGER_CLASSES = {"Logger": RecLogger, "MarketStepSaver": RecSaver, "MarketStepPrintLogger": RecPrinter}
 
 
 class _Fund:
@@ -73,7 +89,7 @@ class MarketRun:
 
     def __init__(self, cfg, market_class=None):
         self.cfg = cfg
-        self.logger = RecLogger()
+        self.logger = LOGGER_CLASSES[cfg.get("logger", "Logger")]()
         cls = market_class or pm.Market
         self.m = cls(market_id=cfg.get("market_id", 0), prng=None, simulator=_Sim(),
                      name="M", logger=self.logger)
@@ -356,7 +372,11 @@ def gen_history(rng, n_ops, profile=None):
         # fine grid: more than 1e9 ticks per price, so neighbouring price levels differ by less than
         # 1e-9 relative (still exactly representable doubles)
         tick, base = rng.choice([(1.0, 3e9), (1.0, 4e12), (0.01, 2.5e7), (0.5, 1e10)])
-    cfg = {"tick": tick, "price": base, "fund0": base, "profile": profile}
+    elif rng.random() < 0.12:
+        # next to zero: bids below one tick are rounded down to the (valid) limit price 0.0
+        base = rng.choice([1, 2, 3]) * tick
+    cfg = {"tick": tick, "price": base, "fund0": base, "profile": profile,
+           "logger": rng.choice(["Logger", "Logger", "MarketStepSaver", "MarketStepPrintLogger"])}
     n_levels = rng.choice([2, 3, 5, 8])
     p_market = {"marketheavy": 0.4, "continuous": 0.1, "batch": 0.15, "mixed": 0.2, "deep": 0.05,
                 "expiry": 0.1}[profile]
@@ -383,7 +403,7 @@ def gen_history(rng, n_ops, profile=None):
                 if rng.random() < p_offgrid:
                     price += rng.choice([0.3, 0.5, 0.77, 0.001]) * tick
                 if price <= 0:
-                    price = tick
+                    price = rng.choice([tick, 0.4 * tick, 0.3 * tick])
             ttl = rng.choice([None, None, 1, 2, 3, 5]) if profile != "expiry" else rng.choice([1, 1, 2, 3, None])
             ops.append({"op": "add", "agent": rng.randint(0, 4), "buy": buy, "price": price,
                         "vol": rng.randint(1, max_vol), "ttl": ttl})
